@@ -16,8 +16,8 @@ RUNS = {"quick": 32, "thorough": 800}
 RULE = (
     "non-dispersive scenes without PML: faces from {periodic, Bloch, PEC, PMC, zero halo}; uniform/non-uniform grid; random per-cell "
     "materials: iso/diag eps, mu with optional sigma_E / sigma_H (per-step loss factor <= 0.3 so reverse amplification stays bounded) or "
-    "lossless full 3x3 SPD tensors; 0-3 sources (electric/magnetic dipoles incl. rotated, uniform and Gaussian plane sources on isotropic "
-    "media) with random switches and CW/pulse profiles; random wall-compatible initial fields; seeded FWD/BWD walk of length ~3T with "
+    "lossless full 3x3 SPD tensors; 0-3 sources (electric/magnetic dipoles incl. rotated; uniform, Gaussian and mode plane sources and "
+    "TFSF box sources on isotropic media) with random switches and CW/pulse profiles; random wall-compatible initial fields; seeded FWD/BWD walk of length ~3T with "
     "host round trips. non-trivial = at least one BWD step on non-zero fields; distinct = scene signature x walk shape"
 )
 REAL = ["place_objects", "apply_params", "forward", "backward (update_E_reverse, update_H_reverse, source inverse updates)", "Recorder(modules=[])"]
@@ -55,9 +55,12 @@ def generate(rng, tier, index):
     region = [[0, n] for n in shape]
     srcs = []
     for i in range(int(rng.integers(0, 4))):
-        k = specgen.choice(rng, ["dipole", "dipole", "uniform_plane", "gaussian_plane"]) if iso else "dipole"
+        k = specgen.choice(rng, ["dipole", "dipole", "uniform_plane", "gaussian_plane", "tfsf_region", "mode"]) if iso else "dipole"
         if k == "dipole":
             srcs.append(specgen.rand_dipole(rng, f"s{i}", shape, region, T))
+        elif k in ("tfsf_region", "mode"):
+            s = specgen.rand_tfsf_region(rng, f"s{i}", shape, region, T, faces=faces) if k == "tfsf_region" else specgen.rand_mode_source(rng, f"s{i}", shape, region, T)
+            srcs.append(s if s is not None else specgen.rand_dipole(rng, f"s{i}", shape, region, T))
         else:
             s = specgen.rand_plane_source(rng, f"s{i}", shape, region, T, kind=k)
             srcs.append(s if s is not None else specgen.rand_dipole(rng, f"s{i}", shape, region, T))
@@ -162,6 +165,8 @@ def execute(spec):
     stats["probe_sigma_h"] = int(bool(m.get("sigma_h_tier")))
     stats["probe_complex"] = int(np.iscomplexobj(first[0][0]))
     stats["probe_sources"] = len(spec.get("sources", []))
+    for s_ in spec.get("sources", []):
+        stats["probe_source_" + s_["kind"]] = stats.get("probe_source_" + s_["kind"], 0) + 1
     stats["probe_switched_source"] = sum(1 for s in spec.get("sources", []) if s.get("switch"))
     stats["max_visits"] = max(visits.values())
     sig = specgen.scene_signature(spec, bool(rt), bool(op.get("reset_fields")), min(4, max(visits.values())))
